@@ -86,6 +86,7 @@ func VH_C10_fragReassembly() bool {
 	r := vNewSwarm(vInner{mtu: 16, sent: &sent}, 64)
 	vStartReceiver(r, &got, 8)
 	fed := make([]int, len(frags))
+	rbuf := make([]byte, 64)
 	steps := 5
 	if vThorough() {
 		steps = 6
@@ -96,7 +97,12 @@ func VH_C10_fragReassembly() bool {
 			break
 		}
 		fed[i]++
-		r.handleTell(context.Background(), p2p.Message[vAddr]{Src: frags[i].src, Dst: 0, Payload: append([]byte{}, frags[i].data...)})
+		// the inner swarm recycles one receive buffer: handleTell must not retain the payload
+		nb := copy(rbuf, frags[i].data)
+		r.handleTell(context.Background(), p2p.Message[vAddr]{Src: frags[i].src, Dst: 0, Payload: rbuf[:nb]})
+		for j := range rbuf {
+			rbuf[j] = 0xEE
+		}
 	}
 	vCheckDelivered(got, msgs, fed, frags)
 	if len(got) > 0 {
@@ -135,5 +141,36 @@ func VH_C01_fragRoundTrip() bool {
 	vAssert(got[0].src == 1 && got[0].dst == 0, "addresses-not-preserved")
 	vAssert(vEqBytes(got[0].payload, msgs[0].payload), "payload-differs-from-what-was-told")
 	vCover("delivered")
+	return true
+}
+
+// verif: sched=coop unwind=24 cover=both-delivered bounds="fragswarm: two sources each tell one 2-byte message (2 fragments each, same message id), the 4 fragments are delivered once each in every order: both messages arrive intact, each attributed to its real sender"
+func VH_C01_fragTwoSources() bool {
+	msgs := []vTold{{src: 1, payload: vBytesN(2)}, {src: 2, payload: vBytesN(2)}}
+	frags, ok := vTellAll(16, msgs)
+	if !ok {
+		return false
+	}
+	var sent []vSent
+	var got []vGot
+	r := vNewSwarm(vInner{mtu: 16, sent: &sent}, 64)
+	vStartReceiver(r, &got, 4)
+	left := make([]int, len(frags))
+	for i := range left {
+		left[i] = i
+	}
+	for len(left) > 0 {
+		k := vInt(0, len(left)-1)
+		f := frags[left[k]]
+		left = append(left[:k], left[k+1:]...)
+		r.handleTell(context.Background(), p2p.Message[vAddr]{Src: f.src, Dst: 0, Payload: append([]byte{}, f.data...)})
+	}
+	vAssert(len(got) == 2, "not-exactly-two-deliveries")
+	for _, g := range got {
+		vAssert(g.dst == 0 && (g.src == 1 || g.src == 2), "addresses-not-preserved")
+		vAssert(vEqBytes(g.payload, msgs[int(g.src)-1].payload), "payload-is-not-what-that-sender-told")
+	}
+	vAssert(got[0].src != got[1].src, "one-sender-delivered-twice")
+	vCover("both-delivered")
 	return true
 }
